@@ -20,9 +20,10 @@ Section RetainAbs.
     post (retain cfg v sc s)
       (fun _ s' => p = false /\ vabs s' v k /\ (forall e, In e j -> ledger s' e = Dropped) /\
                    (forall e, ~ In e j -> ledger s' e = ledger s e) /\ next_elem s' = next_elem s)
-      (fun s' => (p = true /\ exists l', Permutation l' l /\ vabs s' v l' /\ ledger s' = ledger s) \/
-                 (p = false /\ vabs s' v k /\ (forall e, In e j -> ledger s' e = Dropped) /\
-                  (forall e, ~ In e j -> ledger s' e = ledger s e))).
+      (fun s' => next_elem s' = next_elem s /\
+                 ((p = true /\ exists l', Permutation l' l /\ vabs s' v l' /\ ledger s' = ledger s) \/
+                  (p = false /\ vabs s' v k /\ (forall e, In e j -> ledger s' e = Dropped) /\
+                   (forall e, ~ In e j -> ledger s' e = ledger s e)))).
   Proof.
     intros [[Hs ->]|(b & bl & Hv & Hb & Ho & Hl)].
     - simpl. rewrite (sn_retain cfg s v Hs sc). simpl.
@@ -70,8 +71,9 @@ Section RetainAbs.
       eapply post_bind.
       { eapply post_weaken; [exact Hloop|intros w s' H; exact H|].
         (* the predicate panicked: a permutation of the original elements *)
-        intros s' (Hpp & r' & w' & Hb1' & Hb2' & Hi' & Hu'). left. split; [exact Hpp|].
+        intros s' (Hpp & r' & w' & Hb1' & Hb2' & Hi' & Hu').
         destruct (Hback s' r' w' Hi' Hu' Hb1' Hb2') as (bl' & G1 & G2 & G3 & G4 & G5 & G6 & G7 & _).
+        split; [exact G7|]. left. split; [exact Hpp|].
         exists (velems bl'). split; [exact G5|]. split; [right; exists b, bl'; auto|exact G6]. }
       intros w s' (Hpp & Hw & Hi'). cbn [List.length app] in Hw. rewrite Z.add_0_l in Hw.
       assert (Hu0 : u = []) by (apply Hnou; exact Hpp). subst u.
@@ -121,6 +123,6 @@ Section RetainAbs.
           - rewrite (ds_next _ _ _ Hd). simpl. exact G7. }
         eapply post_weaken; [exact Hpost| |].
         * intros u0 s'' H. split; [exact Hpp|]. apply Hgoal. exact H.
-        * intros s'' H. right. split; [exact Hpp|]. destruct (Hgoal s'' H) as (A & B & C & _). auto.
+        * intros s'' H. destruct (Hgoal s'' H) as (A & B & C & D). split; [exact D|]. right. split; [exact Hpp|]. auto.
   Qed.
 End RetainAbs.
